@@ -779,6 +779,75 @@ where
                     v2l.join(" ")
                 ))
             }
+            "SESSION" => {
+                // SESSION <k>: ONE manager session (one with_manager_shared) that creates k variable nodes,
+                // drops them again and collects -- allocation, drop and gc() of the same thread without
+                // leaving the manager in between (needs >= k variables)
+                let k: VarNo = tok[1].parse().unwrap();
+                if self.nvars() < k {
+                    return Err("skip".into());
+                }
+                let r: Result<(usize, usize), String> = self.core.mref.with_manager_shared(|m| {
+                    let before = m.num_inner_nodes();
+                    let mut keep: Vec<F> = Vec::with_capacity(k as usize);
+                    for v in 0..k {
+                        keep.push(oom(F::var(m, v))?);
+                    }
+                    let peak = m.num_inner_nodes();
+                    drop(keep);
+                    let collected = m.gc();
+                    let _ = before;
+                    Ok((peak, collected))
+                });
+                let (peak, collected) = r?;
+                Ok(format!("peak={peak} collected={collected}"))
+            }
+            "BIGFILL" => {
+                // capacity probe for large managers (several allocation chunks): nodes x0 ? v_i : v_j over the
+                // variable nodes v_1.. as children, all kept alive, until the manager reports out-of-memory
+                let n = self.nvars();
+                if n < 64 {
+                    return Err("skip".into());
+                }
+                let res: Result<(usize, usize, usize, bool), String> = self.core.mref.with_manager_shared(|m| {
+                    let x0 = oom(F::var(m, 0))?;
+                    let mut base: Vec<F> = Vec::with_capacity(n as usize);
+                    for v in 1..n {
+                        base.push(oom(F::var(m, v))?);
+                    }
+                    let before = m.num_inner_nodes();
+                    let mut keep: Vec<F> = Vec::new();
+                    let mut hit = false;
+                    'outer: for i in 0..base.len() {
+                        for j in 0..base.len() {
+                            if i == j {
+                                continue;
+                            }
+                            let mut tries = 0;
+                            let r = loop {
+                                match x0.ite(&base[i], &base[j]) {
+                                    Ok(f) => break Some(f),
+                                    Err(_) if tries < 10 => {
+                                        tries += 1;
+                                        std::thread::sleep(Duration::from_millis(3));
+                                    }
+                                    Err(_) => break None,
+                                }
+                            };
+                            match r {
+                                Some(f) => keep.push(f),
+                                None => {
+                                    hit = true;
+                                    break 'outer;
+                                }
+                            }
+                        }
+                    }
+                    Ok((before, keep.len(), m.num_inner_nodes(), hit))
+                });
+                let (before, created, at_end, hit) = res?;
+                Ok(format!("before={before} created={created} inner_at_end={at_end} oom={}", hit as u8))
+            }
             "DROPALL" => {
                 self.core.slots.clear();
                 self.substs.clear();
